@@ -132,10 +132,28 @@ def probe_known2(ctx):
                       dict(entry="SIR_effective_degree_from_graph", depleting=True, probe=True))
 
 
+def probe_known3(ctx):
+    """the recorded failing input of the SIR homogeneous-pairwise instability (corpus/C06)"""
+    import EoN, json, os
+    c = json.load(open(os.path.join(common.VERIF, "corpus", "C06", "sir_homogeneous_pairwise_depleting.json")))
+    H = nx.Graph(); H.add_nodes_from(range(c["n"])); H.add_edges_from(c["edges"])
+    try:
+        with np.errstate(all="ignore"):
+            t, S, I, R = EoN.SIR_homogeneous_pairwise_from_graph(H, c["tau"], c["gamma"], initial_infecteds=c["infs"],
+                                                                   tmin=c["tmin"], tmax=c["tmax"], tcount=c["tcount"])
+        bad = (not np.all(np.isfinite(S + I + R))) or np.max(S) > c["n"] * (1 + 1e-6) or np.max(np.diff(S)) > 1e-6 * c["n"]
+    except Exception:
+        bad = True
+    if bad:
+        ctx.violation("SIR_homogeneous_pairwise_from_graph: unstable when susceptibles are exhausted",
+                      dict(entry="SIR_homogeneous_pairwise_from_graph", depleting=True, probe=True))
+
+
 def run(ctx):
     drv = common.LeanDriver()
     probe_known(ctx)
     probe_known2(ctx)
+    probe_known3(ctx)
     rhs_correspondence(ctx, drv)
     reqs, metas = [], []
     per = ctx.scale(28, 84)
